@@ -401,9 +401,46 @@ type judged struct {
 	WantDev json.RawMessage `json:"wantdev"`
 }
 
-// runJudge generates n random events, runs them and lets TLC judge them.
+// runJudge generates n random events in batches (a TLC run holds the whole trace in memory),
+// runs them and lets TLC judge them.
 func runJudge(c *core.Ctx, n int) (map[string]any, error) {
-	g := &rgen{r: rand.New(rand.NewSource(c.Seed*7919 + 17))}
+	const batch = 2000
+	total := map[string]any{}
+	kinds := map[string]int{}
+	var events, strict, dev, bad, runs int
+	var states int64
+	var wall float64
+	for b := 0; events < n; b++ {
+		k := batch
+		if n-events < k {
+			k = n - events
+		}
+		r, err := judgeBatch(c, k, int64(b))
+		if err != nil {
+			return nil, err
+		}
+		for kk, v := range r["by_kind"].(map[string]int) {
+			kinds[kk] += v
+		}
+		got := r["events"].(int)
+		if got == 0 {
+			return nil, fmt.Errorf("judge: empty batch")
+		}
+		events += k
+		strict += r["conform_to_es5"].(int)
+		dev += r["conform_to_known_deviation"].(int)
+		bad += r["rejected"].(int)
+		states += r["tlc_states"].(int64)
+		wall += r["tlc_wall_s"].(float64)
+		runs++
+	}
+	total["events"], total["by_kind"], total["conform_to_es5"], total["conform_to_known_deviation"], total["rejected"] = strict+dev+bad, kinds, strict, dev, bad
+	total["tlc_states"], total["tlc_wall_s"], total["tlc_runs"] = states, wall, runs
+	return total, nil
+}
+
+func judgeBatch(c *core.Ctx, n int, batchNo int64) (map[string]any, error) {
+	g := &rgen{r: rand.New(rand.NewSource(c.Seed*7919 + 17 + batchNo*104729))}
 	prelude := gen.Prelude + Prelude
 	newVM := func() (*otto.Otto, error) {
 		vm := otto.New()
